@@ -382,6 +382,8 @@ impl Archive {
         file.read_exact(&mut footer_size_bytes)?;
         let footer_size = u64::from_le_bytes(footer_size_bytes);
         if footer_size > file_size - 8 {
+            #[cfg(ragc_verif)]
+            crate::verif::event(crate::verif::ev::X_SITE, [4, 0, 0, 0]);
             anyhow::bail!(
                 "Invalid archive footer size {footer_size} (file has {file_size} bytes): truncated or not an AGC archive"
             );
